@@ -358,3 +358,98 @@ Proof. unfold bquad, bq_tden. ring. Qed.
 
 Lemma Qltb_false a b : Qltb a b = false -> b <= a.
 Proof. unfold Qltb. rewrite negb_false_iff. apply Qle_bool_iff. Qed.
+
+(** quad_extremum: on [0,1] a quadratic coordinate stays between the values the quadratic arm of Path.Bounds
+    takes into account: start, end and — when the vertex parameter lies strictly inside (0,1) — the vertex *)
+Theorem quad_extremum a b c t : 0 <= t <= 1 -> bq_lo a b c <= bquad a b c t <= bq_hi a b c.
+Proof.
+  intros Ht. unfold bq_lo, bq_hi.
+  set (D := bq_tden a b c).
+  assert (ED2 : D == a - 2 * b + c) by reflexivity.
+  pose proof (bquad_chord a b c t) as Hch. fold D in Hch.
+  assert (Hw : 0 <= t * (1 - t)) by (apply Qmult_le_0_compat; lra).
+  assert (lo : Qmin a c <= (1 - t) * a + t * c).
+  { apply conv2_lo; [lra|lra|ring|apply Q.le_min_l|apply Q.le_min_r]. }
+  assert (hi : (1 - t) * a + t * c <= Qmax a c).
+  { apply conv2_hi; [lra|lra|ring|apply Q.le_max_l|apply Q.le_max_r]. }
+  destruct (Qeq_bool D 0) eqn:ED.
+  - apply Qeq_bool_iff in ED.
+    assert (Z : t * (1 - t) * D == 0) by (rewrite ED; ring). lra.
+  - assert (ND : ~ D == 0) by (intro C; apply Qeq_bool_iff in C; congruence).
+    pose proof (bquad_vertex a b c t ND) as Hv. fold D in Hv.
+    set (T := (a - b) / D) in *.
+    assert (ET : T * D == a - b) by (unfold T; field; exact ND).
+    pose proof (sq_nonneg (t - T)) as Hsq.
+    pose proof (bquad_from0 a b c t) as H0. pose proof (bquad_from1 a b c t) as H1. fold D in H0, H1.
+    pose proof (Q.le_min_l (Qmin a c) (bquad a b c T)) as M1.
+    pose proof (Q.le_min_r (Qmin a c) (bquad a b c T)) as M2.
+    pose proof (Q.le_max_l (Qmax a c) (bquad a b c T)) as M3.
+    pose proof (Q.le_max_r (Qmax a c) (bquad a b c T)) as M4.
+    pose proof (Q.le_min_l a c) as M5. pose proof (Q.le_min_r a c) as M6.
+    pose proof (Q.le_max_l a c) as M7. pose proof (Q.le_max_r a c) as M8.
+    destruct (Qlt_le_dec 0 D) as [Dpos|Dnp].
+    + (* convex *)
+      assert (U : 0 <= t * (1 - t) * D) by (apply Qmult_le_0_compat; lra).
+      assert (V : 0 <= D * ((t - T) * (t - T))) by (apply Qmult_le_0_compat; lra).
+      destruct (Qltb 0 T && Qltb T 1) eqn:EI; [lra|].
+      apply andb_false_iff in EI as [EI|EI]; apply Qltb_false in EI.
+      * assert (P : 0 <= (- T) * D) by (apply Qmult_le_0_compat; lra).
+        assert (P' : (- T) * D == - (T * D)) by ring.
+        assert (W : 0 <= t * D) by (apply Qmult_le_0_compat; lra).
+        assert (X : 0 <= t * (2 * (b - a) + t * D)) by (apply Qmult_le_0_compat; lra).
+        lra.
+      * assert (P : 0 <= (T - 1) * D) by (apply Qmult_le_0_compat; lra).
+        assert (P' : (T - 1) * D == T * D - D) by ring.
+        assert (W : 0 <= (1 - t) * D) by (apply Qmult_le_0_compat; lra).
+        assert (X : 0 <= (1 - t) * (2 * (b - c) + (1 - t) * D)) by (apply Qmult_le_0_compat; lra).
+        lra.
+    + (* concave *)
+      assert (Dneg : D < 0).
+      { destruct (Qlt_le_dec D 0) as [L|G]; [exact L|]. exfalso. apply ND. lra. }
+      assert (U : 0 <= t * (1 - t) * (- D)) by (apply Qmult_le_0_compat; lra).
+      assert (U' : t * (1 - t) * (- D) == - (t * (1 - t) * D)) by ring.
+      assert (V : 0 <= (- D) * ((t - T) * (t - T))) by (apply Qmult_le_0_compat; lra).
+      assert (V' : (- D) * ((t - T) * (t - T)) == - (D * ((t - T) * (t - T)))) by ring.
+      destruct (Qltb 0 T && Qltb T 1) eqn:EI; [lra|].
+      apply andb_false_iff in EI as [EI|EI]; apply Qltb_false in EI.
+      * assert (P : 0 <= (- T) * (- D)) by (apply Qmult_le_0_compat; lra).
+        assert (P' : (- T) * (- D) == T * D) by ring.
+        assert (W : 0 <= t * (- D)) by (apply Qmult_le_0_compat; lra).
+        assert (W' : t * (- D) == - (t * D)) by ring.
+        assert (X : 0 <= t * (2 * (a - b) + t * (- D))) by (apply Qmult_le_0_compat; lra).
+        assert (X' : t * (2 * (a - b) + t * (- D)) == - (t * (2 * (b - a) + t * D))) by ring.
+        lra.
+      * assert (P : 0 <= (T - 1) * (- D)) by (apply Qmult_le_0_compat; lra).
+        assert (P' : (T - 1) * (- D) == D - T * D) by ring.
+        assert (W : 0 <= (1 - t) * (- D)) by (apply Qmult_le_0_compat; lra).
+        assert (W' : (1 - t) * (- D) == - ((1 - t) * D)) by ring.
+        assert (X : 0 <= (1 - t) * (2 * (c - b) + (1 - t) * (- D))) by (apply Qmult_le_0_compat; lra).
+        assert (X' : (1 - t) * (2 * (c - b) + (1 - t) * (- D)) == - ((1 - t) * (2 * (b - c) + (1 - t) * D))) by ring.
+        lra.
+Qed.
+
+Example quad_extremum_ex : bq_lo 0 3 0 == 0 /\ bq_hi 0 3 0 == 3 # 2.
+Proof. split; vm_compute; reflexivity. Qed.
+
+(** ... and the bounds are attained (tightness of the quadratic arm): both are values of the curve on [0,1] *)
+Theorem quad_extremum_attained a b c :
+  (exists t, 0 <= t <= 1 /\ bquad a b c t == bq_lo a b c) /\ (exists t, 0 <= t <= 1 /\ bquad a b c t == bq_hi a b c).
+Proof.
+  unfold bq_lo, bq_hi.
+  assert (A0 : bquad a b c 0 == a) by apply bquad_0. assert (A1 : bquad a b c 1 == c) by apply bquad_1.
+  assert (MN : exists t, 0 <= t <= 1 /\ bquad a b c t == Qmin a c).
+  { destruct (Q.min_spec a c) as [[_ H]|[_ H]]; [exists 0|exists 1]; rewrite H; split; try lra; assumption. }
+  assert (MX : exists t, 0 <= t <= 1 /\ bquad a b c t == Qmax a c).
+  { destruct (Q.max_spec a c) as [[_ H]|[_ H]]; [exists 1|exists 0]; rewrite H; split; try lra; assumption. }
+  destruct (Qeq_bool (bq_tden a b c) 0); [split; assumption|].
+  set (T := (a - b) / bq_tden a b c).
+  destruct (Qltb 0 T && Qltb T 1) eqn:EI; [|split; assumption].
+  apply andb_true_iff in EI as [E0 E1]. apply Qltb_lt in E0, E1.
+  split.
+  - destruct (Q.min_spec (Qmin a c) (bquad a b c T)) as [[_ H]|[_ H]].
+    + destruct MN as (t0 & R & E). exists t0. split; [exact R|rewrite H; exact E].
+    + exists T. split; [lra|rewrite H; reflexivity].
+  - destruct (Q.max_spec (Qmax a c) (bquad a b c T)) as [[_ H]|[_ H]].
+    + exists T. split; [lra|rewrite H; reflexivity].
+    + destruct MX as (t0 & R & E). exists t0. split; [exact R|rewrite H; exact E].
+Qed.
